@@ -144,7 +144,8 @@ CompletedFrag(s, f) ==        \* process_completed_fragment
   IF "IS_SPARSE" \in f.flags
   THEN Release([s EXCEPT !.ino[f.file].blocks = SetBlk(@, f.index, <<0, FALSE>>),
                          !.ino[f.file].sparse = @ + f.size, !.ino[f.file].ext = TRUE])
-  ELSE LET hit == IF "DONT_DEDUP" \in f.flags THEN 0 ELSE FirstHit(s, f) IN
+  ELSE LET hit == IF "DONT_DEDUP" \in f.flags \/ ("DONT_COMPRESS" \in f.flags /\ Dev # "DontCompressTailDeduped")     \* a tail that must stay uncompressed
+                   THEN 0 ELSE FirstHit(s, f) IN                                                                      \* cannot share a chunk of another block
        IF hit # 0
        THEN Release([s EXCEPT !.ino[f.file].fidx = s.ht[hit].index, !.ino[f.file].foff = s.ht[hit].offset])
        ELSE LET s1 == IF s.hasFrag /\ s.frag.size + f.size > B         \* overflow: number it now, submit
